@@ -84,15 +84,15 @@ PROPS = {
     },
     "C19": {
         "units": ["memimage"],
-        "level_text": "RuntimeMemoryImage::{read, read_string_until_null_terminator, is_global_memory_address, is_interval_readable, is_interval_writeable, is_address_writeable, get_ro_data_pointer_at_address} are extracted from /repo and verified for every image whose segments are pairwise disjoint (adjacent segments included) with no bound on the number or size of segments: flag queries return the flags of the unique segment containing the address, read is Ok(None) exactly for a range inside one writable segment, Err exactly when no single segment contains the range, otherwise a value of the requested size; the string read returns exactly the bytes up to the first NUL of the containing segment.",
-        "level_note": "Trusted (R9 substitutions, contracts = std documentation): position of the first zero byte in a slice tail, CStr::from_bytes_with_nul / to_str (UTF-8 validity uninterpreted), and the byte-order assembly inside `read` (to_vec/rev/Piece fold) -- the 'in the image's byte order' clause rests on that assumed contract and is cross-checked only by the bounded twin sweep. 'read-only' is read as 'not writable' (the code never consults read_flag in read). Addresses >= 2^64 and size 0 are outside the contract (the code panics). Not covered: ELF/PE/bare-metal constructors.",
+        "level_text": "RuntimeMemoryImage::{read, read_string_until_null_terminator, is_global_memory_address, is_interval_readable, is_interval_writeable, is_address_writeable, get_ro_data_pointer_at_address} are extracted from /repo and verified for every image whose segments are pairwise disjoint (adjacent segments included) with no bound on the number or size of segments: flag queries return the flags of the unique segment containing the address, read is Ok(None) exactly for a range inside one writable segment, Err exactly when no single segment contains the range, otherwise exactly the stored bytes assembled in the image's byte order; the string read returns exactly the bytes up to the first NUL of the containing segment.",
+        "level_note": "Trusted (contracts = std documentation): for the string read, two R9 substitutions -- position of the first zero byte in a slice tail, CStr::from_bytes_with_nul / to_str (UTF-8 validity uninterpreted); for `read`, NO substitution: only an assume_specification of <[T]>::to_vec (same length, element-wise clone) in shim/memimage.rs -- slicing, into_iter/rev/collect, next/unwrap and the for loop over the vec::IntoIter are vstd's own specifications, and the byte-order assembly (the Piece fold) is verified from the real text with a loop invariant (value after k steps = big-endian value of the first k+1 bytes in read order) against the contract of Bitvector::bin_op(Piece), which is proved in unit bitvector (imported by @use, verified in the same run); the `?` on bin_op is proved unreachable. 'read-only' is read as 'not writable' (the code never consults read_flag in read). Addresses >= 2^64 and size 0 are outside the contract (the code panics). Not covered: ELF/PE/bare-metal constructors.",
         "design_ref": "DESIGN.md section 3 (C19)",
         "default_twins": ["c19.read", "c19.read_string", "c19.flags"],
         "sweep_twins": ["c19.read", "c19.read_string", "c19.flags"],
         "not_covered": ["RuntimeMemoryImage::new / from_elf_segments / from_elf_sections / new_from_bare_metal / get_base_address (goblin, string parsing, iterator adapters)", "add_global_memory_offset (iter_mut)", "MemorySegment constructors"],
         "assumptions": [
             "segments pairwise disjoint as half-open address ranges, base + len <= u64::MAX (the property's 'disjoint segments')",
-            "R9: std contracts for slice position / CStr::from_bytes_with_nul / to_str; byte-order assembly of `read` assumed (shim/memimage.rs)",
+            "R9: std contracts for slice position / CStr::from_bytes_with_nul / to_str (string read only); assume_specification of <[T]>::to_vec (shim/memimage.rs); the byte order of `read` is PROVED (Piece fold with loop invariant against unit bitvector's bin_op contract)",
             "address values < 2^64 and 1 <= size <= 2^25 (otherwise the real code panics)",
             "apint contracts (shim/apint.rs), rule R4/R5",
         ],
